@@ -15,30 +15,31 @@ import (
 // Family C: real frpc <-> fault relay <-> real frps (in-process, or a sacrificial child: uses vnode).
 
 type cEnv struct {
-	c        *h.Case
-	pair     hb
-	mux      bool
-	n        int
-	user     string
-	names    []string // as frpc and frps know them ("<user>.<name>")
-	tcpNames []string
-	tcpPorts []int
-	srvText  string
-	srv      *h.Server
-	child    *h.Child
-	useChild bool
-	relay    *faultRelay
-	cli      *h.Client
-	status   *statusProbe
-	be       *h.TCPBackend
-	ident    string
-	runID    string
-	logins   atomic.Int64 // server.registerControl.beforeStart hits for runID
-	loginsAt int64        // value of logins when the current fault phase began
-	acceptAt int          // relay accept count when the current fault phase began
-	kinds    []string
-	healed   int
-	timed    int
+	c           *h.Case
+	pair        hb
+	mux         bool
+	n           int
+	user        string
+	names       []string // as frpc and frps know them ("<user>.<name>")
+	tcpNames    []string
+	tcpPorts    []int
+	visitorPort int
+	srvText     string
+	srv         *h.Server
+	child       *h.Child
+	useChild    bool
+	relay       *faultRelay
+	cli         *h.Client
+	status      *statusProbe
+	be          *h.TCPBackend
+	ident       string
+	runID       string
+	logins      atomic.Int64 // server.registerControl.beforeStart hits for runID
+	loginsAt    int64        // value of logins when the current fault phase began
+	acceptAt    int          // relay accept count when the current fault phase began
+	kinds       []string
+	healed      int
+	timed       int
 }
 
 func cScript(k int, rng interface{ Intn(int) int }, thorough bool) (phases []string, n int, child bool) {
@@ -61,7 +62,7 @@ func cScript(k int, rng interface{ Intn(int) int }, thorough bool) (phases []str
 	case 5:
 		return []string{"down:" + dur(500, maxOut), "restart:" + dur(300, 3000), "cut"}, 1, false
 	case 6:
-		return []string{"traffic-cut", "stall"}, 20, false
+		return []string{"traffic-cut", "blackhole"}, 20, false
 	case 7:
 		return []string{"refuse:" + dur(500, maxOut), "cut-quick:" + dur(20, 800), "cut-quick:" + dur(20, 800)}, 150, false
 	case 8:
@@ -69,7 +70,7 @@ func cScript(k int, rng interface{ Intn(int) int }, thorough bool) (phases []str
 	case 9:
 		return []string{"steady", "down:" + dur(500, maxOut)}, 20, false
 	case 10:
-		return []string{"stall", "restart:" + dur(300, 3000)}, 150, false
+		return []string{"blackhole", "restart:" + dur(300, 3000)}, 150, false
 	default:
 		return []string{"cut-mid-registration", "restart:" + dur(300, 3000), "refuse:" + dur(500, 4000)}, 20, false
 	}
@@ -81,6 +82,7 @@ func cRandomScript(rng interface{ Intn(int) int }) (phases []string, n int, chil
 		func() string { return "cut" },
 		func() string { return "cut-quick:" + dur(10, 1500) },
 		func() string { return "stall" },
+		func() string { return "blackhole" },
 		func() string { return "refuse:" + dur(500, 25000) },
 		func() string { return "down:" + dur(500, 25000) },
 		func() string { return "restart:" + dur(200, 25000) },
@@ -111,7 +113,7 @@ func pairCase(c *h.Case, k int) {
 	c.Data["phases"], c.Data["proxies"], c.Data["mux"], c.Data["interval_s"], c.Data["timeout_s"], c.Data["child_server"], c.Data["heartbeat_scope"], c.Data["pool"] =
 		phases, e.n, e.mux, e.pair.I, e.pair.T, e.useChild, scope, pool
 
-	ports := pa.Block(5) // server, relay, tcp proxy 0, tcp proxy 1, unused local port for the stcp proxies
+	ports := pa.Block(6) // server, relay, tcp proxy 0, tcp proxy 1, (spare), visitor bind port
 	scopeLine := ""
 	if scope {
 		scopeLine = "auth.additionalScopes = [\"HeartBeats\"]\n"
@@ -172,6 +174,11 @@ transport.heartbeatTimeout = %d
 		} else {
 			fmt.Fprintf(&sb, "[[proxies]]\nname = \"%s\"\ntype = \"stcp\"\nsecretKey = \"k\"\nlocalIP = \"127.0.0.1\"\nlocalPort = %d\n", name, e.be.Port)
 		}
+	}
+	if e.n >= 3 {
+		// a visitor of the same client to one of its own stcp proxies: the visitor path must heal as well
+		e.visitorPort = ports[5]
+		fmt.Fprintf(&sb, "[[visitors]]\nname = \"v0\"\ntype = \"stcp\"\nserverName = \"p002\"\nsecretKey = \"k\"\nbindAddr = \"127.0.0.1\"\nbindPort = %d\n", ports[5])
 	}
 	sort.Strings(e.names)
 	t0 := h.Now()
@@ -288,6 +295,12 @@ func (e *cEnv) healthy() (bool, string) {
 	for i := range e.tcpPorts {
 		if err := e.probe(i); err != nil {
 			return false, fmt.Sprintf("echo through %s: %v", e.tcpNames[i], err)
+		}
+	}
+	if e.visitorPort != 0 {
+		id, err := h.AskIdent(fmt.Sprintf("127.0.0.1:%d", e.visitorPort), 5*time.Second)
+		if err != nil || id != e.ident+"|" {
+			return false, fmt.Sprintf("echo through the stcp visitor: %q %v", id, err)
 		}
 	}
 	return true, ""
@@ -445,34 +458,116 @@ func (e *cEnv) phase(ph string) bool {
 		e.relay.CutAll()
 		return e.awaitRecovery("cut-mid-registration", start)
 
-	case "stall":
-		live := e.relay.Live()
-		e.relay.stall.Store(true)
+	case "stall", "blackhole":
 		grace := teardownGrace(e.pair.T)
+		if kind == "blackhole" {
+			// nobody reads any more while a user stream keeps both ends writing: their TCP buffers fill up;
+			// yamux adds its 10 s connection write timeout to the teardown path
+			grace += 15 * time.Second
+			for i := 0; i < 2; i++ {
+				if uc, err := net.DialTimeout("tcp", fmt.Sprintf("127.0.0.1:%d", e.tcpPorts[0]), 3*time.Second); err == nil {
+					defer uc.Close()
+					go func() {
+						buf := make([]byte, 64*1024)
+						for {
+							_ = uc.SetWriteDeadline(time.Now().Add(60 * time.Second))
+							if _, err := uc.Write(buf); err != nil {
+								return
+							}
+						}
+					}()
+					go func() {
+						buf := make([]byte, 64*1024)
+						for {
+							if _, err := uc.Read(buf); err != nil {
+								return
+							}
+						}
+					}()
+				}
+			}
+			time.Sleep(200 * time.Millisecond)
+			start = h.Now()
+		}
+		// the connections that must not survive the session (judged as they are when the silence begins)
+		type mustDie struct {
+			p    *relayPair
+			what string
+		}
+		var must []mustDie
+		for _, p := range e.relay.Live() {
+			if yes, what := p.dieWithSession(e.mux); yes {
+				must = append(must, mustDie{p, what})
+			}
+		}
+		frozen := kind == "blackhole"
+		if frozen {
+			e.relay.freeze.Store(true)
+			stopWatch := make(chan struct{})
+			defer close(stopWatch)
+			go e.relay.watchSockets(stopWatch)
+		} else {
+			e.relay.stall.Store(true)
+		}
 		// both ends must give the session up on their own
-		cliDone := func() bool {
-			for _, p := range live {
-				if p.ender.Load() == 0 {
+		cliGone := func(p *relayPair) int64 {
+			if frozen {
+				return p.clientGone.Load() // the frozen relay does not pass a close on: each end is seen separately
+			}
+			if p.ender.Load() != 0 {
+				return p.endedAt.Load() // a stalled relay passes the first close on: either end may have been first
+			}
+			return 0
+		}
+		srvGone := func(p *relayPair) int64 {
+			if frozen && !e.mux && e.srv != nil {
+				return p.serverGone.Load()
+			}
+			return 1 // with tcpMux frps keeps the shared TCP connection of a dead control stream: not judged
+		}
+		srvDone := func() bool { return e.srv == nil || !e.sessionPresent() }
+		waitUntil(grace, func() bool {
+			for _, m := range must {
+				if cliGone(m.p) == 0 || srvGone(m.p) == 0 {
 					return false
 				}
 			}
-			return true
-		}
-		srvDone := func() bool { return e.srv == nil || !e.sessionPresent() }
-		waitUntil(grace, func() bool { return cliDone() && srvDone() })
+			return srvDone()
+		})
 		now := h.Now()
 		bad := false
+		if frozen {
+			st := tcpStates()
+			for _, m := range must {
+				cl, cr := m.p.client.LocalAddr().(*net.TCPAddr).Port, m.p.client.RemoteAddr().(*net.TCPAddr).Port
+				sl, sr := m.p.server.LocalAddr().(*net.TCPAddr).Port, m.p.server.RemoteAddr().(*net.TCPAddr).Port
+				e.c.Ev("frozen-pair", "what", m.what, "first_up", string(rune(m.p.firstUp.Load())), "down_bytes", m.p.downBytes.Load(),
+					"relay_client_sock", st[[2]int{cl, cr}], "frpc_sock", st[[2]int{cr, cl}], "relay_server_sock", st[[2]int{sl, sr}], "frps_sock", st[[2]int{sr, sl}],
+					"client_gone", m.p.clientGone.Load(), "server_gone", m.p.serverGone.Load())
+			}
+		}
 		if !srvDone() {
-			e.c.Violation("silent-session-not-torn-down", "real frpc behind a relay that swallows all data, mux=%v heartbeatTimeout %v: frps still lists the session %.1f s after the silence began", e.mux, T, secs(now-start))
+			e.c.Violation("silent-session-not-torn-down", "real frpc behind a relay in %s mode (no data passes), mux=%v heartbeatTimeout %v: frps still lists the session %.1f s after the silence began", kind, e.mux, T, secs(now-start))
 			bad = true
 		}
-		for _, p := range live {
-			switch p.ender.Load() {
-			case 0:
-				e.c.Violation("silent-server-not-detected", "relay swallows all data, mux=%v heartbeat %d/%d: a connection of frpc to the server is still open %.1f s after the silence began", e.mux, e.pair.I, e.pair.T, secs(now-start))
+		for _, m := range must {
+			if t := cliGone(m.p); t == 0 {
+				key := "silent-server-not-detected"
+				if strings.HasPrefix(m.what, "a work connection") {
+					key = "client-work-connection-left-open-after-session-death"
+				}
+				e.c.Violation(key, "relay in %s mode (no data passes), mux=%v heartbeat %d/%d: %s is still held open by frpc %.1f s after the silence began", kind, e.mux, e.pair.I, e.pair.T, m.what, secs(now-start))
 				bad = true
-			case 1, 2:
-				stats.add(fmt.Sprintf("C_stall_to_close_T%d", e.pair.T), time.Duration(p.endedAt.Load()-start))
+			} else {
+				stats.add(fmt.Sprintf("C_%s_to_close_T%d", kind, e.pair.T), time.Duration(t-start))
+			}
+			if srvGone(m.p) == 0 && srvDone() {
+				key := "silent-session-not-torn-down"
+				if strings.HasPrefix(m.what, "a work connection") {
+					key = "dead-session-resource-not-released:pooled-work-connection"
+				}
+				e.c.Violation(key, "relay in %s mode, mux=%v heartbeatTimeout %v: %s is still held open by frps %.1f s after the silence began", kind, e.mux, T, m.what, secs(now-start))
+				bad = true
 			}
 		}
 		if !bad && e.srv != nil {
@@ -494,11 +589,12 @@ func (e *cEnv) phase(ph string) bool {
 		}
 		e.relay.stall.Store(false)
 		e.relay.CutAll()
+		e.relay.freeze.Store(false)
 		if bad {
 			return false
 		}
 		e.timed++
-		return e.awaitRecovery("stall", h.Now())
+		return e.awaitRecovery(kind, h.Now())
 
 	case "refuse", "down":
 		d := time.Duration(argN) * time.Millisecond
